@@ -643,6 +643,7 @@ where
     let after = c.ev.iter().filter(|e| **e == Ev::End).count().max(1);
     let item_bound = 2 * stream.len() + 16;
     let mut decoded: Vec<K::Item> = vec![];
+    let mut decoded_at_first_end: Option<usize> = None; // what a consumer that stops at None has seen
     let mut consumed = 0usize; // bytes of the stream covered by the frames returned so far (ld only)
     let mut ends = 0;
     let mut errors = 0;
@@ -694,6 +695,7 @@ where
             Ok(None) => {
                 last_was_framer_err = false;
                 sh.borrow_mut().log.push(Ev::End);
+                decoded_at_first_end.get_or_insert(decoded.len());
                 ends += 1;
             }
             Ok(Some(Ok(it))) => {
@@ -738,22 +740,25 @@ where
                 0,
             );
         }
-        if errors > injected {
+        // on a well-formed stream every error item needs a cause (hostile input may be answered with errors)
+        if c.rt && errors > injected {
             rep.problem(
                 "contract",
-                sig(c, "framed-read", if c.rt { rt_cls } else { "error-without-cause" }),
+                sig(c, "framed-read", rt_cls),
                 format!("{who}: {errors} error items, only {injected} read errors were injected"),
                 c.v,
                 0,
             );
         }
         if c.rt {
+            // the frames a consumer has received when the stream reports its end for the first time
+            let seen = decoded_at_first_end.unwrap_or(decoded.len());
             let sent: Vec<Vec<u8>> = items.iter().map(|i| K::to_bytes(i)).collect();
-            let got: Vec<Vec<u8>> = decoded.iter().map(|i| K::to_bytes(i)).collect();
+            let got: Vec<Vec<u8>> = decoded[..seen].iter().map(|i| K::to_bytes(i)).collect();
             let ok = if c.k == "noop" {
                 sent.concat() == got.concat() && got.iter().all(|g| !g.is_empty())
             } else {
-                sent == got && items == decoded
+                sent == got && items[..] == decoded[..seen] && decoded.len() == seen
             };
             if !ok {
                 rep.problem(
